@@ -254,6 +254,7 @@ enum
     I_NULL, // a null const char*: puts the statement's stream into a failed state (later insertions print nothing,
             // but callables streamed afterwards are still evaluated and the record is still emitted)
     I_POLY, // an object of a derived class streamed through a reference to its base (the text comes from a virtual)
+    I_LONG, // a text of 5000 characters (beyond any small buffer)
     I_KINDS
 };
 
@@ -276,6 +277,16 @@ inline std::ostream& operator<<(std::ostream& o, const Shape& s)
 {
     s.print(o);
     return o;
+}
+inline const std::string& long_text()
+{
+    static const std::string t = [] {
+        std::string x;
+        for (int i = 0; x.size() < 5000; i++)
+            x += "long" + std::to_string(i) + " ";
+        return x;
+    }();
+    return t;
 }
 inline const Shape& poly()
 {
@@ -354,6 +365,7 @@ void feed_one(Stream& s, const Stmt& st, size_t p)
     case I_HEX: s << std::hex; break;
     case I_NULL: s << static_cast<const char*>(nullptr); break;
     case I_POLY: s << poly(); break;
+    case I_LONG: s << long_text(); break;
     default: s << CallNest<L, SEV>{ id }; break;
     }
 }
@@ -384,6 +396,7 @@ void feed_chain(Stream&& s, const Stmt& st, size_t p)
     case I_HEX: feed_chain<L, SEV>(std::move(s) << std::hex, st, p + 1); break;
     case I_NULL: feed_chain<L, SEV>(std::move(s) << static_cast<const char*>(nullptr), st, p + 1); break;
     case I_POLY: feed_chain<L, SEV>(std::move(s) << poly(), st, p + 1); break;
+    case I_LONG: feed_chain<L, SEV>(std::move(s) << long_text(), st, p + 1); break;
     default: feed_chain<L, SEV>(std::move(s) << CallNest<L, SEV>{ id }, st, p + 1); break;
     }
 }
@@ -464,6 +477,7 @@ void run_stmt_sev(const Stmt& st)
         case I_HEX: VP_BOUND(std::hex)
         case I_NULL: VP_BOUND(static_cast<const char*>(nullptr))
         case I_POLY: VP_BOUND(poly())
+        case I_LONG: VP_BOUND(long_text())
         default: VP_BOUND((CallNest<L, SEV>{ id }))
         }
 #undef VP_BOUND
@@ -591,6 +605,7 @@ inline void ref_items(int e, const int t[3], const Stmt& st, std::vector<Event>&
         case I_HEX: o << std::hex; break;
         case I_NULL: o << static_cast<const char*>(nullptr); break;
         case I_POLY: o << "circle(r=2)"; break;
+        case I_LONG: o << long_text(); break;
         default:
         {
             ev.push_back(Event{ 'C', id });
